@@ -10,12 +10,12 @@ HOOK_COMMITS = ["204cfe3", "2edc694", "e1d8638"]
 CHECKS = {
  "C15": ("exploration",
          "Go race detector over a mixed concurrent workload in child processes of a -race build (reports logged, parsed and de-duplicated by the innermost bluge frames of both accesses), Close-under-load with a goroutine-dump deadlock oracle, and reopen-after-close content check",
-         "Writers on disjoint id spaces, reader acquisition, 3..8 parallel searches per reader covering the scored and unscored conjunction/disjunction optimisations, phrase, sorted top-N with aggregations and stored-field loads run under seeded jitter and GOMAXPROCS 1..16 while merges and persists are in flight; the writer is closed after all Batch callers returned (in a third of the runs while searches still run) and the directory reopened. Any race report with bluge frames, a dead child, a Close that provably deadlocks or lost acknowledged content fails the check. Held on the executions observed; the race detector only sees executed accesses. Both tiers run twice: on the ordinary build and on a build against a scratch copy of the working tree in which cmd/yieldify inserted a seeded perturbation hook between all critical sections of package index (before every Lock / send / receive / select, after every Unlock / close / go), so that windows without a directory or plug-in seam are widened too; the yield points reached are reported. A probe runs the same workload on the second bundled segment format (ice v2), whose shared stored-field buffer is a listed finding.",
-         "Trusts: the Go race detector; 40 s Close watchdog decided by two goroutine dumps (else inconclusive).",
+         "Writers on disjoint id spaces, reader acquisition, 3..8 parallel searches per reader covering the scored and unscored conjunction/disjunction optimisations, phrase, sorted top-N with aggregations and stored-field loads run under seeded jitter and GOMAXPROCS 1..16 while merges and persists are in flight; the writer is closed after all Batch callers returned (in a third of the runs while searches still run; in most runs Close is started while a background goroutine is held inside a hand-over step - merger before / introducer inside a merge introduction, introducer inside a persist introduction, persister before a snapshot write, after a segment load - and then let go) and the directory reopened. Any race report with bluge frames, a dead child, a Close that provably deadlocks or lost acknowledged content fails the check. Held on the executions observed; the race detector only sees executed accesses. Both tiers run twice: on the ordinary build and on a build against a scratch copy of the working tree in which cmd/yieldify inserted a seeded perturbation hook between all critical sections of package index (before every Lock / send / receive / select, after every Unlock / close / go), so that windows without a directory or plug-in seam are widened too; the yield points reached are reported. A probe runs the same workload on the second bundled segment format (ice v2), whose shared stored-field buffer is a listed finding.",
+         "Trusts: the Go race detector; 40 s Close watchdog decided by two goroutine dumps 3 s apart, restricted to the writer's own goroutines, all blocked in the same place (else inconclusive).",
          "DESIGN.md §4 C15"),
  "C04": ("exploration",
          "runtime monitoring of held readers in child processes: complete fingerprints (count, documents with stored fields, document values, dictionaries, query battery) re-taken twice back to back after batches, around scripted background steps (segment removal, merge introduction, persist swap), at quiescence and after Writer.Close; liveness assertions in a wrapping segment plug-in (use after handle close); child death = fault",
-         "Readers of several ages (current-root, superseded, OpenReader beside the live writer, outliving Close) are kept open while a merge-happy writer with seeded jitter continues; each reader's fingerprint must never change and its content must equal the abstract index at acquisition; gates place one background step of each kind between two reads and the log of realised (reader kind, step kind) pairs is reported. Held on the runs observed. Both tiers run twice: on the ordinary build and on a build against a scratch copy of the working tree in which cmd/yieldify inserted a seeded perturbation hook between all critical sections of package index (before every Lock / send / receive / select, after every Unlock / close / go), so that windows without a directory or plug-in seam are widened too; the yield points reached are reported.",
+         "Readers of several ages (current-root, superseded, OpenReader beside the live writer, outliving Close) are kept open while a merge-happy writer with seeded jitter continues; each reader's fingerprint must never change and its content must equal the abstract index at acquisition; gates place one background step of each kind between two reads (segment removal, merge introduction with a reader taken inside the window, persist swap, and a Writer.Close started while the merger is held at the beginning of a file merge) and the log of realised (reader kind, step kind) pairs is reported. Held on the runs observed. Both tiers run twice: on the ordinary build and on a build against a scratch copy of the working tree in which cmd/yieldify inserted a seeded perturbation hook between all critical sections of package index (before every Lock / send / receive / select, after every Unlock / close / go), so that windows without a directory or plug-in seam are widened too; the yield points reached are reported.",
          "Trusts: fingerprint determinism (scores included), role detection, the plug-in wrapper's handle table.",
          "DESIGN.md §4 C04"),
  "C05": ("exploration",
@@ -35,7 +35,7 @@ CHECKS = {
          "DESIGN.md §4 C01"),
  "C18": ("exploration",
          "hostile-input monitoring of every bundled analyzer, tokenizer, token filter configuration and char filter in child processes (panic capture, progress watchdog) with token-stream oracles (determinism, position increments, offset ranges, tokenizer slice equality) and an index/search round trip",
-         "Script-aware and byte-level generators, plus an enumerated sweep of all (rune, mark) / (mark, rune) pairs over nine script blocks x 22 combining, voiced, joiner and width marks, feed all 24 analyzers, 8 tokenizers, ~75 filter configurations (fed synthetic token streams directly, including invalid UTF-8, empty and one-rune tokens) and 5 char filters; every output is checked for the stated token invariants, two runs must agree, and every fourth tokenised text is indexed and must be found by a match query requiring all of its own terms. Held on the inputs explored.",
+         "Script-aware and byte-level generators, plus an enumerated sweep of all (rune, mark) / (mark, rune) pairs over nine script blocks x 22 combining, voiced, joiner and width marks, feed all 24 analyzers, 8 tokenizers, ~75 filter configurations (fed synthetic token streams directly, including invalid UTF-8, empty and one-rune tokens, and streams with tokens left out and position gaps as a stop filter in front produces them) and 5 char filters; every output is checked for the stated token invariants, two runs must agree, and every fourth tokenised text is indexed and must be found by a match query requiring all of its own terms. Held on the inputs explored.",
          "Trusts: child-process observation; the analyzer's own CharFilters define 'the text the tokenizer saw'. The round trip hands the field its own copy of the bytes (token filters rewrite terms in place).",
          "DESIGN.md §4 C18"),
  "C20": ("exploration",
@@ -45,7 +45,7 @@ CHECKS = {
          "DESIGN.md §4 C20"),
  "C14": ("fault_enumeration",
          "fault injection at the Directory seam, enumerated over the operation indexes of a recorded fault-free run, each faulty re-run in a child process monitored for death / lack of progress, with reader-vs-model oracles after every batch, surfacing checks (Batch error, AsyncError), an acknowledgement probe after the fault clears and crash-image recovery of the faulty trace",
-         "For seeded histories the fault-free operation sequence is recorded; the same history is then re-run with an injected failure at chosen operation indexes for Persist (before any byte / after a partial write / after the full write), Load, Remove and List, transient and sticky, in safe and unsafe mode (pairs of placements in the thorough tier). Each run must not die or stall, readers must follow the applied batches, background failures must reach AsyncError (and the waiting Batch), the batch after the fault must be acknowledged, and all boundary crash images of the faulty trace must recover to a state not older than the last acknowledgement. Enumerated over the sampled placements of each history.",
+         "For seeded histories the fault-free operation sequence is recorded; the same history is then re-run with an injected failure at chosen operation indexes for Persist (before any byte / after a partial write / after the full write), Load, Remove and List, transient and sticky, in safe and unsafe mode (pairs of placements in the thorough tier). Each run must not die or stall, readers must follow the applied batches, background failures must reach AsyncError (and the waiting Batch), a Write that failed inside an item writer must not end in a reported success (the injector passes a swallowed error on faithfully and marks it), the batch after the fault must be acknowledged, and all boundary crash images of the faulty trace must recover to a state not older than the last acknowledgement. Enumerated over the sampled placements of each history.",
          "Trusts: directory-level injection as a model of I/O failure (os-level variants covered by C13); storage model of C02; 45 s progress watchdog (wall clock) reported with goroutine dump.",
          "DESIGN.md §4 C14"),
  "C11": ("exploration",
@@ -65,7 +65,7 @@ CHECKS = {
          "DESIGN.md §2.6, §4 C03"),
  "C13": ("fault_enumeration",
          "runtime monitoring of the real FileSystemDirectory.Persist under an enumerated grid of item sizes, pre-existing file states and fault placements, with os-level observation and fault injection through a go build -overlay copy of os.File (Write/Sync/Close/Truncate hooks)",
-         "Every cell of the grid (7 sizes x 3 chunkings x 4 pre-existing states x {no fault, item writer failing after k bytes, cancellation after k bytes, os write failing after a partial write, os Sync failing, os Close failing} with k over a boundary set x both item kinds, plus a real ice segment and a real snapshot) is executed against the real directory; success requires byte-exact content and an observed successful Sync after the last write and before return; failure requires that nothing is left under the name. Exhaustive over the grid.",
+         "Every cell of the grid (7 sizes x 3 chunkings x 4 pre-existing states x {no fault, item writer failing after k bytes, cancellation after k bytes, cancellation already in force at entry, os write failing after a partial write, os Sync failing, os Close failing} with k over a boundary set x both item kinds, plus a real ice segment and a real snapshot) is executed against the real directory; success requires byte-exact content and an observed successful Sync after the last write and before return; failure requires that nothing is left under the name. Exhaustive over the grid.",
          "Trusts: the os overlay (hooks inserted into copies of os/file.go and os/file_posix.go for this build only); a returned fsync means durable; directory entries durable at completion.",
          "DESIGN.md §4 C13"),
  "C12": ("exploration",
@@ -74,8 +74,8 @@ CHECKS = {
          "Trusts: child-process observation (a dead child = fault), runtime.MemStats for allocation. Segment type strings of >= 3 characters (the bundled plugins use \"ice\").",
          "DESIGN.md §4 C12"),
  "C08": ("exploration",
-         "differential runtime oracle: the same document multiset built by 14 physical recipes, every build answering the same generated requests, canonical answers compared pairwise against the one-batch build",
-         "For generated corpora (including the empty one) every recipe (batch partitioning, ice v1/v2, optimisations off, merge-happy memory/disk, reopen, Backup+OpenReader, OfflineWriter, OfflineWriter prefix + appended batches, histories with deletions, MultiSearch over partitions; each layout also asked with score mode none) must give the same id multiset, stored fields, distinct-key order and aggregations, and bit-comparable scores when neither side has merged segments or pending deletions. Held on the corpora, recipes and requests explored.",
+         "differential runtime oracle: the same document multiset built by 15 physical recipes, every build answering the same generated requests, canonical answers compared pairwise against the one-batch build",
+         "For generated corpora (including the empty one) every recipe (batch partitioning, ice v1/v2, optimisations off, merge-happy memory/disk, reopen, Backup+OpenReader, OfflineWriter, OfflineWriter prefix + appended batches, histories with deletions (un-merged and merge-happy), MultiSearch over partitions; each layout also asked with score mode none) must give the same id multiset, stored fields, distinct-key order and aggregations, and bit-comparable scores when neither side has merged segments or pending deletions. Held on the corpora, recipes and requests explored.",
          "Trusts: canonicalisation (ties under field sorts compared as sets; terms size above vocabulary). Layout differences are measured through the hook (segment counts) so that 'different layout' is not assumed.",
          "DESIGN.md §4 C08"),
  "C17": ("exploration",
@@ -90,7 +90,7 @@ CHECKS = {
          "DESIGN.md §4 C16"),
  "C09": ("exploration",
          "differential runtime oracle: TopN(n, from, sort) and After/Before page chains of the real collectors against the complete match list ordered by a reference comparator over model values",
-         "For generated corpora, queries, sort orders (<= 3 keys, score/text/numeric/date, asc/desc, missing first/last) and (n, from) on both sides of the slice/heap switch, the result count and the pre-allocation cap, the returned ids must equal elements [from, from+n) of the reference ranking; After and Before chains under a total order must visit every match once in order for all page sizes, with fresh and with re-used sort order objects. Held on the inputs explored.",
+         "For generated corpora, queries, sort orders (<= 3 keys, score/text/numeric/date, asc/desc, missing first/last) and (n, from) on both sides of the slice/heap switch, the result count and the pre-allocation cap (with dedicated corpora of 1100-2000 documents so that more than 1000 matches exist beyond the cap), the returned ids must equal elements [from, from+n) of the reference ranking; After and Before chains under a total order must visit every match once in order for all page sizes, with fresh and with re-used sort order objects. Held on the inputs explored.",
          "Trusts: the reference comparator (model values, ties by enumeration order of the all-matches collector), scores taken from the all-matches run. Sort fields single-valued.",
          "DESIGN.md §4 C09"),
  "C07": ("exploration",
@@ -145,7 +145,7 @@ def main():
         },
         "engines": [
             {"name": "vcheck", "path": "/verif/harness", "serves_properties": [c["property_id"] for c in checks],
-             "kind_free_text": "Go harness: runtime monitors / reference-model oracles / trace and history checkers driving the real bluge code built from /repo with -tags verif; child processes for anything that may fault; -race, os-overlay and yield-instrumented (cmd/yieldify) build variants"},
+             "kind_free_text": "Go harness: runtime monitors / reference-model oracles / trace and history checkers driving the real bluge code built from /repo with -tags verif; every check runs under a supervisor process (a check process killed by a fault in a bluge background goroutine is reported as a violation), child processes for anything that may fault or stall (a stalled case is re-run alone before it is reported); -race, os-overlay and yield-instrumented (cmd/yieldify) build variants"},
         ],
         "checks": checks,
         "not_applicable": na,
